@@ -316,6 +316,8 @@ func codecCase(out *Out, t *Target, v *vval.Val, vs string, junk, u8, modelOK bo
 			break
 		}
 	}
+	// C07: reads leave the struct unchanged; returned bytes share no memory with the message
+	aliasChecks(out, t, v, replay)
 	// C05: repeat deterministic marshal; rebuilt equal value (different map insertion order, nil-vs-empty)
 	for rep := 0; rep < 4; rep++ {
 		m2 := t.B.ToMessage(0, permuteMaps(v, rep))
@@ -373,4 +375,61 @@ func hasSNaN32(s *vschema.Schema, mi int, v *vval.Val) bool {
 		}
 	}
 	return false
+}
+
+// anyScalar reports whether pred holds for some scalar (field, element, map key/value, oneof member).
+func anyScalar(s *vschema.Schema, mi int, v *vval.Val, pred func(k vschema.Kind, x *vval.Val) bool) bool {
+	if v.T != vval.Msg {
+		return false
+	}
+	for j, f := range s.Msgs[mi].Fields {
+		if j >= len(v.Kids) {
+			break
+		}
+		slot := v.Kids[j]
+		el := func(x *vval.Val) bool {
+			if f.IsMsg {
+				return anyScalar(s, f.Msg, x, pred)
+			}
+			return pred(f.Kind, x)
+		}
+		switch f.Shape {
+		case vschema.Singular:
+			if el(slot) {
+				return true
+			}
+		case vschema.Repeated:
+			for _, e := range slot.Kids {
+				if el(e) {
+					return true
+				}
+			}
+		case vschema.Map:
+			for _, e := range slot.Kids {
+				if pred(f.Key, e.Kids[0]) || el(e.Kids[1]) {
+					return true
+				}
+			}
+		case vschema.Oneof:
+			if slot.T == vval.One && el(slot.Kids[0]) {
+				return true
+			}
+		}
+	}
+	return false
+}
+
+func hasNaN(s *vschema.Schema, mi int, v *vval.Val) bool {
+	return anyScalar(s, mi, v, func(k vschema.Kind, x *vval.Val) bool {
+		if x.T != vval.Bits {
+			return false
+		}
+		switch k {
+		case vschema.Float:
+			return x.N&0x7f800000 == 0x7f800000 && x.N&0x007fffff != 0
+		case vschema.Double:
+			return x.N&0x7ff0000000000000 == 0x7ff0000000000000 && x.N&0x000fffffffffffff != 0
+		}
+		return false
+	})
 }
